@@ -32,6 +32,7 @@ def plan(tier, seed):
         jobs.append({"func": "progress_grid", "fw": fw, "name": "progress_grid/" + fw, "args": {}})
         jobs.append({"func": "repeat_unregister", "fw": fw, "name": "repeat_unregister/" + fw, "args": {}})
         jobs.append({"func": "decorated_objects", "fw": fw, "name": "decorated_objects/" + fw, "args": {}})
+        jobs.append({"func": "send_faults", "fw": fw, "name": "send_faults/" + fw, "args": {}})
     jobs.append({"func": "idgen", "name": "idgen", "args": {"seed": seed * 1000 + 900, "n": 500 if tier == "quick" else 5000}})
     return jobs
 
@@ -916,10 +917,115 @@ def idgen(col, seed, n):
     col.case(True, dig="session-wrap", cls="idgen/session-wrap", sample=seen)
 
 
+def send_fault_one(col, c):
+    """one request whose transport.send() fails (the message is above the transport's size limit, cannot be serialized, or the transport has just gone):
+    the API call fails (raises, or returns a result that has failed), nothing is written, and the request is gone - a later reply bearing its id
+    matches no pending request and is a protocol violation, in both the success and the ERROR form.  Other pending requests are untouched, and
+    the next request works."""
+    from autobahn.exception import PayloadExceededError
+    from autobahn.wamp.exception import SerializationError, TransportLost, ProtocolError
+    from autobahn.wamp.types import PublishOptions
+    kind, fault, ser, form = c["kind"], c["fault"], c["ser"], c["form"]
+    U = "com.example.a"
+    E = "wamp.error.not_authorized"
+    ok = ("reply", 0, "success", [], {}, E)
+    i = Interp(col, ser)
+
+    def fail(what, detail):
+        col.finding("C04|send-fault|" + what, "%s  [%r]" % (detail, c), dict(c, check="send_fault"))
+    try:
+        # another request of another kind stays pending throughout
+        i.apply(("call", "com.example.other", [1], {}, {"on_progress": False, "details": False, "timeout": None}))
+        if kind == "unsubscribe":
+            i.apply(("subscribe", U, None, False))
+            i.apply(("reply", 1, "success", [], {}, E))
+        elif kind == "unregister":
+            i.apply(("register", U, None, None))
+            i.apply(("reply", 1, "success", [], {}, E))
+        w, sess, M = i.w, i.s, i.w.message
+        rid = i.next_id
+        exc = {"payload": PayloadExceededError("message too big for this transport"), "serialization": SerializationError("cannot serialize"),
+               "lost": TransportLost()}[fault]
+        api = {"call": lambda: sess.call(U, 1, k=2), "publish": lambda: sess.publish(U, 1, options=PublishOptions(acknowledge=True)),
+               "subscribe": lambda: sess.subscribe(lambda *a, **k: None, U), "register": lambda: sess.register(lambda *a, **k: None, U),
+               "unsubscribe": lambda: i.subs[-1]["obj"].unsubscribe(), "unregister": lambda: i.regs[-1]["obj"].unregister()}[kind]
+        before = len(w.t.sent)
+        snap = i.snapshot()
+        w.t.fail_next_send = exc
+        fut, err = i.guarded_api(api, kind)
+        w.settle()
+        if w.t.fail_next_send is not None:
+            raise HarnessError("the %s call did not reach transport.send()" % kind)
+        if len(w.t.sent) != before:
+            fail("message-written-after-failed-send|" + kind, repr([type(m).__name__ for m in w.t.sent[before:]]))
+        if err is None:
+            tr = w.track(fut)
+            w.settle()
+            if tr.n != 1 or tr.ok:
+                fail("request-pending-after-failed-send|" + kind, "%s() returned a result that did not fail (completions %d) although send() raised %r" % (kind, tr.n, exc))
+        elif type(err) is not type(exc):
+            fail("other-exception-after-failed-send|%s|%s" % (kind, exc_key(err)), "send() raised %r, the caller got %r" % (exc, err))
+        # the reply that would have answered it: no such request is pending any more
+        if form == "success":
+            msg = {"call": lambda: M.Result(rid, args=[1]), "publish": lambda: M.Published(rid, 777), "subscribe": lambda: M.Subscribed(rid, 778),
+                   "register": lambda: M.Registered(rid, 779), "unsubscribe": lambda: M.Unsubscribed(rid), "unregister": lambda: M.Unregistered(rid)}[kind]()
+        else:
+            msg = M.Error(Interp.REQ_TYPE[kind], rid, E, args=["no"])
+        e2 = w.feed(msg)
+        if e2 is None:
+            fail("reply-for-unsent-request-accepted|%s|%s" % (kind, form), "%s reply bearing id %d was accepted although that request was never sent (send() raised %s)" % (
+                form, rid, type(exc).__name__))
+        elif not isinstance(e2, ProtocolError):
+            fail("reply-for-unsent-request-raised-other|%s|%s" % (kind, exc_key(e2)), repr(e2))
+        i.unchanged(snap, None)
+        if w.d.loop_errors:
+            e3 = w.d.loop_errors[0]
+            w.d.loop_errors[:] = []
+            fail("loop-exception|" + kind, repr(e3)[:300])
+        # the session still works: the next request of the same kind is sent and completes with its own reply (its id is the next unused one)
+        if fault != "lost" and kind in ("call", "publish", "subscribe", "register"):
+            before = len(w.t.sent)
+            fut2, err2 = i.guarded_api(api, kind)
+            if err2 is not None or len(w.t.sent) != before + 1:
+                fail("next-request-failed|" + kind, "%r / %d messages" % (err2, len(w.t.sent) - before))
+            else:
+                m2 = w.t.sent[-1]
+                if m2.request not in (rid, rid + 1):
+                    fail("next-request-id|" + kind, "request id %r after a failed request %d" % (m2.request, rid))
+                tr2 = w.track(fut2)
+                good = {"call": lambda: M.Result(m2.request, args=[5]), "publish": lambda: M.Published(m2.request, 780), "subscribe": lambda: M.Subscribed(m2.request, 781),
+                        "register": lambda: M.Registered(m2.request, 782)}[kind]()
+                e4 = w.feed(good)
+                if e4 is not None or tr2.n != 1 or not tr2.ok:
+                    fail("next-request-not-completed|" + kind, "%r n=%d ok=%r" % (e4, tr2.n, tr2.ok))
+    finally:
+        try:
+            i.w.close()
+        except Exception:
+            pass
+
+
+def send_faults(col):
+    n = 0
+    for ser in ("json", "cbor"):
+        for kind in ("call", "publish", "subscribe", "register", "unsubscribe", "unregister"):
+            for fault in ("payload", "serialization", "lost"):
+                for form in ("success", "error"):
+                    c = {"kind": kind, "fault": fault, "ser": ser, "form": form}
+                    send_fault_one(col, c)
+                    n += 1
+                    col.case(True, enum=True, cls=["send-fault/%s/%s" % (kind, fault)], sample=c)
+    col.exhaustive.append("C04 send faults: 6 request kinds x 3 ways transport.send() fails x reply in success / ERROR form x 2 serializers")
+
+
 def replay(col, case):
     case = dec(case)
     c = case.get("case", case)
     if c.get("check") in ("idgen", "idgen-session"):
+        return
+    if c.get("check") == "send_fault":
+        send_fault_one(col, c)
+        col.case()
         return
     if c.get("check") == "syncreply":
         syncreply(col)
